@@ -17,7 +17,7 @@ pub fn def() -> PropDef {
         nontrivial,
         rule: "(5/6) C01's client programs with concurrent calls from 1-4 clients through all handle kinds plus one termination cause (stop, halt, try_stop, Context::stop, consume, last strong handle dropped, started error, handler panic, timeout failure, task cancellation before the j-th poll or at a global step) at a random position, awaiters and joins; (1/6) C13's programs against stream-attached actors incl. saturated streams; x seeded schedules; non-trivial = two calls were pending at once or the actor died with a call/ping pending; distinct = distinct order of client-op and callback events",
         needed_probes: &["c02_reply_checked", "call_pending_at_death", "c02_op_after_death_checked", "c02_await_result_checked"],
-        quick_runs: 100_000,
+        quick_runs: 200_000,
         thorough_runs: 2_000_000,
         block: 1,
         flavours: &["tokio"],
